@@ -61,21 +61,14 @@ def run(ctx):
     cv = ctx.fn(LTK + "::calc_srv_value")
     ev = W.ev(cv.path)
     r = ev.ret()
+    from lib import digest_form
     oks = False
     det = fmt(r)
-    if r[0] == "index" and r[2][0] == "agg" and r[2][2] == (("int", 0), ("int", sp["common"]["srv_len"])):
-        d = r[1]
-        if is_call(d) and callee_name(d[1]) in ("finish", "as_ref") and d[2][0][0] == "obj":
-            cobj = d[2][0]
-            init = W.obj_init(cobj)
-            alg = init[2][0] if is_call(init, "Context::new") else None
-            ups = [(b, ev.call_args(b)[1]) for (b, callee, argi, ap) in W.obj_events(cobj) if callee_name(callee) == "update" and argi == 0]
-            order = {b: i for i, b in enumerate(cv.rpo())}
-            ups.sort(key=lambda x: order[x[0]])
-            seq = [u[1] for u in ups]
-            oks = alg == ("static", "ring::digest::SHA512") and seq == [("bytes", bytes(sp["common"]["srv_prefix"])), ("param", cv.path, 1)] and \
-                all(not cv.in_loop(u[0]) for u in ups) and cv.dominates(ups[0][0], ups[1][0])
-            det = "alg=%s updates=%s slice 0..%d" % (fmt(alg), [fmt(x) for x in seq], sp["common"]["srv_len"])
+    df = digest_form(W, ev, r)
+    if df is not None:
+        oks = df["alg"] == ("static", "ring::digest::SHA512") and df["pieces"] == [("bytes", bytes(sp["common"]["srv_prefix"])), ("param", cv.path, 1)] and \
+            df["take"] == sp["common"]["srv_len"]
+        det = "alg=%s pieces=%s first %s bytes" % (fmt(df["alg"]), [fmt(x) for x in df["pieces"]], df["take"])
     ctx.check("srv-derivation", "calc_srv_value", oks, "SRV = SHA-512(0xff || pubkey)[0..32]", "calc_srv_value computes %s" % det, ctx.loc(cv))
 
     # ------------------------------------------------------------------ (3) one identity
